@@ -81,6 +81,9 @@ def find_traversals(f):
     return calls
 
 
+COUNT = {"name": "num_segments_"}
+
+
 def run(chk):
     F = facts_for(chk)
     E = Effects(F)
@@ -90,7 +93,9 @@ def run(chk):
         dim = rec["targs"][0]
         dirty, rebuild, ins, outs = c12.layout_roles(F, E, cls)
         flags_member = next(x["name"] for x in rec["fields"] if "OptimizationFlags" in x["ty"].get("n", ""))
-        count_member = next(iter({"num_segments_"} & set(x["name"] for x in rec["fields"])), None)
+        from .c16 import discover_roles
+        count_member = discover_roles(F, E, cls)[1]["COUNT"]        # the segment-count member, whatever it is called
+        COUNT["name"] = count_member
         expected_flags = [fl for fl in ORDERED if order >= NEED[fl]]
         # ---------------------------------------------------------------- R1
         roles, members = check_builder(chk, F, cls, rebuild, flags_member, dim, expected_flags, dirty, count_member)
@@ -761,13 +766,13 @@ def check_spatial_and_time(chk, F, cls, f, sc, is_guess):
         return x.replace("(*this.active_time_map_)", "TM").replace("this.active_time_map_", "TM").replace("(*this.active_spatial_map_)", "SM").replace("this.active_spatial_map_", "SM")
     stm = [(a, norm(b), norm(c)) for a, b, c in stm]
     if is_guess:
-        want = ("%i < this.num_segments_", "%x[%i]", "TM.toTau(this.ref_times_[%i])")
+        want = (("%i < this." + COUNT["name"]), "%x[%i]", "TM.toTau(this.ref_times_[%i])")
         ok = any(s[0] == want[0] and s[2] == want[2] and s[1].endswith("[%i]") for s in stm)
         chk.ob("C09-R2", "%s %s: time slot i <- toTau(reference duration i), i < N" % (cls, inst), ok, loc(f), str(stm), construct="%s/%s/time" % (cls, inst))
     else:
-        ok_dec = any(s[0] == "%i < this.num_segments_" and s[1].endswith("cache_times[%i]") and s[2] == "TM.toTime($p0[%i])" for s in stm)
+        ok_dec = any(s[0] == ("%i < this." + COUNT["name"]) and s[1].endswith("cache_times[%i]") and s[2] == "TM.toTime($p0[%i])" for s in stm)
         chk.ob("C09-R2", "%s %s: duration i <- toTime(x[i]), i < N" % (cls, inst), ok_dec, loc(f), str(stm), construct="%s/%s/time-decode" % (cls, inst))
-        ok_bw = any(s[0] == "%i < this.num_segments_" and s[1] == "$p1[%i]" and s[2].startswith("TM.backward($p0[%i],") and s[2].endswith("grads.times[%i])") and "cache_times[%i]" in s[2] for s in stm)
+        ok_bw = any(s[0] == ("%i < this." + COUNT["name"]) and s[1] == "$p1[%i]" and s[2].startswith("TM.backward($p0[%i],") and s[2].endswith("grads.times[%i])") and "cache_times[%i]" in s[2] for s in stm)
         chk.ob("C09-R2", "%s %s: gradient slot i <- backward(x[i], duration i, dCost/dT_i)" % (cls, inst), ok_bw, loc(f), str([s for s in stm if "backward" in s[2]]), construct="%s/%s/time-backward" % (cls, inst))
     # spatial loops
     seg = "segment(%var.offset,%var.dof)"
@@ -791,6 +796,7 @@ def check_spatial_and_time(chk, F, cls, f, sc, is_guess):
                 idx = f["body"]["body"].index(lp)
                 wsrec = cls + "::Workspace"
                 W = WsDef(F, cls, wsrec, next(x["ty"]["n"] for x in F.record(wsrec)["fields"] if x["name"] == "spline"), {})
+                W.count_member = COUNT["name"]
                 W.fn_stack.append(f)
                 W.stmts(f["body"]["body"][:idx])
                 d = W.defs.get("cache_waypoints")
@@ -814,7 +820,7 @@ def check_spatial_and_time(chk, F, cls, f, sc, is_guess):
                 for n in walk(lp["body"]):
                     if n.get("k") == "if":
                         conds.append(preds.literal(n["cond"], sc))
-                okc = conds == [(True, "%var.point_index == 0"), (True, preds.cmp_atom("==", "%var.point_index", "this.num_segments_", False)[1])]
+                okc = conds == [(True, "%var.point_index == 0"), (True, preds.cmp_atom("==", "%var.point_index", "this." + COUNT["name"], False)[1])]
                 chk.ob("C09-R2", "%s %s: gradient slots [offset, offset+dof) <- backwardGrad(x slice, gradient of that very waypoint)" % (cls, inst), oks and okc, loc(f, lp), str(txt) + str(conds),
                        construct="%s/%s/spatial-backward" % (cls, inst))
         chk.ob("C09-R2", "%s %s: spatial loop iterates the cached layout" % (cls, inst), layout_member is not None and layout_member.startswith("this."), loc(f, lp), str(layout_member),
